@@ -14,7 +14,19 @@ use vcommon::*;
 use zcash_pool_migration::scheduling::{
     self as sch, AnchorBucketInterval, DelayDistribution, SchedulingParams, WakeupParams, WakeupScheduleError,
 };
+use std::convert::Infallible;
+use zcash_pool_migration::denomination::DenominationPlan;
+use zcash_pool_migration::engine::{
+    MigrationState, MigrationStatus, MigrationTransaction, MigrationTransferId, MigrationTxKind, MigrationTxState,
+    PoolMigrationRead, PoolMigrationWrite, ProvedTransaction,
+};
+use zcash_pool_migration::preparation::PreparationPlan;
+use zcash_pool_migration::satisfiability::{
+    advance_migration, AdvanceConfig, DuenessTargets, ReorgSettleDepth, ReplanThreshold, StepSatisfiability,
+};
+use zcash_pool_migration::state::AdvanceStep;
 use zcash_protocol::consensus::BlockHeight;
+use zcash_protocol::TxId;
 use zcash_protocol::value::Zatoshis;
 use zcash_protocol::zip318::{
     self as z318, classify, PoolMigrationConstants, Zip318Classification, Zip318Evidence, Zip318TxKind,
@@ -475,6 +487,147 @@ fn gen_wakeups(r: &mut Rng, st: &mut Stats) {
     wakeup_case(margin, jitter, tip, &ts, &ws, st);
 }
 
+
+// ---- schedule shifts (state.rs shift_schedule through the public advance_migration overdue path) ----
+
+/// A store that vouches for every step and has seen nothing mine.
+struct YesStore;
+impl PoolMigrationRead for YesStore {
+    type Error = Infallible;
+    fn get_migration(&self) -> Result<Option<MigrationState>, Infallible> {
+        Ok(None)
+    }
+    fn check_step_satisfiability(&self, _tx: &MigrationTransaction, _settle: ReorgSettleDepth) -> Result<StepSatisfiability, Infallible> {
+        Ok(StepSatisfiability::Satisfiable { as_of_height: bh(0) })
+    }
+    fn mined_height(&self, _txid: TxId) -> Result<Option<BlockHeight>, Infallible> {
+        Ok(None)
+    }
+}
+impl PoolMigrationWrite for YesStore {
+    fn replace_migration(&mut self, _state: &MigrationState) -> Result<(), Infallible> {
+        Ok(())
+    }
+    fn update_transaction(&mut self, _id: MigrationTransferId, _s: MigrationTxState) -> Result<(), Infallible> {
+        Ok(())
+    }
+    fn store_proved_transaction(&mut self, state: &mut MigrationState, proven: ProvedTransaction) -> Result<(), Infallible> {
+        proven.apply(state);
+        Ok(())
+    }
+}
+
+/// (state code, is transfer, scheduled, expiry, anchor); state: 0 awaiting signature, 1 signed, 2 proved, 3 broadcast, 4 mined
+#[derive(Clone, Copy, PartialEq, Eq, Debug)]
+struct STx {
+    st: u8,
+    transfer: bool,
+    sched: u32,
+    expiry: u32,
+    anchor: Option<u32>,
+}
+fn stx_term(t: &STx) -> String {
+    format!("({}, {}, {}, {}, {})", t.st, boolc(t.transfer), t.sched, t.expiry, opt(t.anchor.map(|a| zu(a as u128))))
+}
+fn shift_txid(n: u32) -> TxId {
+    let mut b = [0u8; 32];
+    b[..4].copy_from_slice(&n.to_le_bytes());
+    b[31] = 0xc7;
+    TxId::from_bytes(b)
+}
+fn build_shift_state(txs: &[STx], interval: u32) -> MigrationState {
+    let zat = |v: u64| Zatoshis::const_from_u64(v);
+    let n_transfers = txs.iter().filter(|t| t.transfer).count() as u64;
+    let cross: Vec<Zatoshis> = (0..n_transfers).map(|_| zat(COIN)).collect();
+    let den = DenominationPlan::from_stored_parts(cross, zat(15_000), None, zat(0), zat(n_transfers * COIN), zat(n_transfers * COIN)).expect("denomination plan");
+    let mut crossing = 0usize;
+    let rows: Vec<MigrationTransaction> = txs.iter().enumerate().map(|(i, t)| {
+        let txid = shift_txid(i as u32);
+        let kind = if t.transfer { crossing += 1; MigrationTxKind::Transfer { crossing: crossing - 1 } } else { MigrationTxKind::Preparation { layer: 0, index: i } };
+        let state = match t.st {
+            0 => MigrationTxState::AwaitingSignature,
+            1 => MigrationTxState::Signed,
+            2 => MigrationTxState::Proved,
+            3 => MigrationTxState::Broadcast { txid },
+            _ => MigrationTxState::Mined { txid, height: bh(t.sched) },
+        };
+        MigrationTransaction::from_parts(MigrationTransferId::new(i as u32), kind, vec![1, 2, 3, i as u8], vec![], bh(t.sched), bh(t.expiry),
+            t.anchor.map(bh), txid, state, None, None, vec![[i as u8; 32]], None)
+    }).collect();
+    MigrationState::from_parts(MigrationStatus::InProgress, den, PreparationPlan::from_parts(vec![], vec![]), rows, iv(interval), ReplanThreshold::new(50).unwrap())
+}
+fn read_shift_state(s: &MigrationState) -> Vec<STx> {
+    s.transactions().iter().map(|t| STx {
+        st: match t.state() { MigrationTxState::AwaitingSignature => 0, MigrationTxState::Signed => 1, MigrationTxState::Proved => 2, MigrationTxState::Broadcast { .. } => 3, MigrationTxState::Mined { .. } => 4 },
+        transfer: matches!(t.kind(), MigrationTxKind::Transfer { .. }),
+        sched: u32::from(t.scheduled_height()),
+        expiry: u32::from(t.expiry_height()),
+        anchor: t.anchor_boundary().map(u32::from),
+    }).collect()
+}
+
+/// One late wake-up: `advance_migration` served at `served`; transaction 0 is the proved, due
+/// transfer whose lag triggers (or not) the overdue shift. Prints one `Shift` case.
+fn shift_step(oc: bool, interval: u32, state: &mut MigrationState, served: u32, ws: &[u64], st: &mut Stats) -> bool {
+    let pre = read_shift_state(state);
+    let mut store = YesStore;
+    let cfg = AdvanceConfig::new(ReorgSettleDepth::new(10));
+    let out = with_rng(ws, |g| advance_migration(&mut store, state, DuenessTargets::at(bh(served)), &cfg, g).map(|a| a.step().clone()));
+    let (o, ok) = match &out {
+        None => { st.out("shift:panic"); (PANIC.to_string(), false) }
+        Some((Ok(AdvanceStep::Broadcast { id }), used)) if u32::from(*id) == 0 => {
+            let post = read_shift_state(state);
+            st.out(if post == pre { "shift:unchanged" } else if *used > 0 { "shift:redrawn" } else { "shift:moved" });
+            (ok(pair(list(post.iter().map(stx_term)), zu(*used as u128))), true)
+        }
+        Some((other, _)) => { st.out("shift:other-step"); eprintln!("c17: unexpected step {:?}", other.as_ref().map(|_| ())); return false; }
+    };
+    case(format!("Shift {} {} {} {} {} {}", boolc(oc), interval, served, list(pre.iter().map(stx_term)), zl(ws), o));
+    ok
+}
+
+fn gen_shift_sequence(r: &mut Rng, oc: bool, st: &mut Stats) {
+    let interval: u32 = match r.below(6) { 0 => 12, 1 => 100, 2 => *r.pick(&[1u32, 2, 50, 145, 1000]), _ => 144 };
+    let base: u32 = match r.below(8) { 0 => u32::MAX - 40_000 - r.below(5000) as u32, 1 => r.range(10, 400) as u32 * interval.max(2), _ => r.range(1_000_000, 3_000_000) as u32 };
+    let on_grid = |h: u32| h - h % interval;
+    let canon_expiry = |h: u32| u32::from(z318::expiry_height(bh(h)));
+    // transaction 0: the proved transfer that is served late
+    let s0 = base;
+    let a0 = on_grid(s0).saturating_sub(interval * r.range(1, 4) as u32);
+    let mut txs = vec![STx { st: 2, transfer: true, sched: s0, expiry: canon_expiry(s0), anchor: Some(a0) }];
+    let n = r.range(1, 5) as usize;
+    let mut sched = s0;
+    for _ in 0..n {
+        sched = sched.saturating_add(match r.below(4) { 0 => r.below(20) as u32, 1 => r.below(2 * interval as u64 + 1) as u32, _ => r.range(1, 200) as u32 });
+        let mr = on_grid(sched);
+        let anchor = match r.below(10) {
+            0 => None,
+            1 => Some(mr),                                                              // age 0: drawn against a later tip
+            2 => Some(mr.saturating_sub(interval * r.range(1, 6) as u32).saturating_add(r.below(3) as u32)),   // possibly off the grid / too old
+            3 | 4 | 5 => Some(mr.saturating_sub(interval * 4)),                         // at the age cap
+            _ => Some(mr.saturating_sub(interval * r.range(1, 4) as u32)),
+        };
+        let (stc, transfer) = match r.below(12) { 0 => (2u8, true), 1 => (3, true), 2 => (4, true), 3 => (1, false), 4 | 5 | 6 => (0, true), _ => (1, true) };
+        let anchor = if transfer { anchor } else { None };
+        txs.push(STx { st: stc, transfer, sched, expiry: canon_expiry(sched), anchor });
+    }
+    // a second proved transfer must not be scheduled before transaction 0 (it would be served first)
+    let mut state = build_shift_state(&txs, interval);
+    let steps = r.range(1, 8) as usize;
+    let mut served = s0;
+    for _ in 0..steps {
+        let delta = *r.pick(&[1u32, 17, 50, 100, 143, 144, 145, 1000, 16, 33]);
+        let cur0 = u32::from(state.transactions()[0].scheduled_height());
+        served = cur0.saturating_add(delta);
+        if served == u32::MAX { break; }
+        let unproved = state.transactions().iter().filter(|t| matches!(t.state(), MigrationTxState::AwaitingSignature | MigrationTxState::Signed)).count();
+        let wl = if r.chance(1, 15) { r.below(unproved as u64 + 1) as usize } else { unproved + r.below(4) as usize };
+        let ws = stream(r, st, wl);
+        if !shift_step(oc, interval, &mut state, served, &ws, st) { break; }
+    }
+    let _ = served;
+}
+
 // ---- main ----------------------------------------------------------------------------------
 
 fn anchor_out(o: Option<(Option<BlockHeight>, usize)>, st: &mut Stats, what: &str) -> String {
@@ -740,6 +893,11 @@ fn main() {
                 }
             }
         }
+    }
+
+    // --- schedule shifts: sequences of late wake-ups through advance_migration ---
+    for _ in 0..a.budget(500, 6_000) {
+        gen_shift_sequence(&mut r, oc, &mut st);
     }
 
     // --- wake-ups ---
